@@ -33,6 +33,23 @@ type c17Case struct {
 	Gran        string `json:"granularity"`  // "raw" (direct only: no aggregation), "", functions, filefunctions, files, lines, addresses
 	NoInlines   bool   `json:"noinlines,omitempty"`
 	ShowColumns bool   `json:"showcolumns,omitempty"`
+	// web only: further URL parameters of this request (f, i, h, s, tf, ti: the driver's filters) and
+	// the requests issued on the SAME server before it (a sequence differing in one parameter)
+	Filters map[string]string `json:"filters,omitempty"`
+	Before  []c17Req          `json:"before,omitempty"`
+}
+
+// c17Req is one GET /flamegraph request.
+type c17Req struct {
+	SampleIndex int               `json:"sample_index"`
+	Gran        string            `json:"granularity"`
+	NoInlines   bool              `json:"noinlines,omitempty"`
+	ShowColumns bool              `json:"showcolumns,omitempty"`
+	Filters     map[string]string `json:"filters,omitempty"`
+}
+
+func (cs c17Case) req() c17Req {
+	return c17Req{cs.SampleIndex, cs.Gran, cs.NoInlines, cs.ShowColumns, cs.Filters}
 }
 
 // ---- raw (index based) stack set, common to the real code, its JSON and the model ----
@@ -207,10 +224,10 @@ func c17NilWalk(v reflect.Value, path string, out *[]string) {
 }
 
 type c17JSONSet struct {
-	Total   int64
-	Type    string
-	Unit    string
-	Stacks  *[]struct {
+	Total  int64
+	Type   string
+	Unit   string
+	Stacks *[]struct {
 		Value   int64
 		Sources *[]int
 	}
@@ -409,32 +426,159 @@ func c17Safely(f func()) (panicked string) {
 	return ""
 }
 
-// ---- granularity: the documented meaning of the driver's granularity options, applied with the
-// exported Profile.Aggregate (the direct path has no driver in front of report.New) ----
+// ---- granularity: the documented meaning of the driver's granularity options ----
 
-func c17Aggregate(p *profile.Profile, gran string, noInlines, showColumns bool) error {
-	var function, filename, linenumber, address bool
-	inlines := !noInlines
+type c17AggFlags struct{ none, inlines, function, filename, linenumber, columns, address bool }
+
+func c17GranFlags(gran string, noInlines, showColumns bool) (c17AggFlags, error) {
+	f := c17AggFlags{inlines: !noInlines, columns: showColumns}
 	switch gran {
 	case "raw":
-		return nil
+		f.none = true
 	case "functions":
-		function = true
+		f.function = true
 	case "addresses":
-		if inlines {
-			return nil
+		if f.inlines {
+			f.none = true
 		}
-		function, filename, linenumber, address = true, true, true, true
+		f.function, f.filename, f.linenumber, f.address = true, true, true, true
 	case "lines":
-		function, filename, linenumber = true, true, true
+		f.function, f.filename, f.linenumber = true, true, true
 	case "files":
-		filename = true
+		f.filename = true
 	case "", "filefunctions": // the flame graph view's default
-		function, filename = true, true
+		f.function, f.filename = true, true
 	default:
-		return fmt.Errorf("unknown granularity %q", gran)
+		return f, fmt.Errorf("unknown granularity %q", gran)
 	}
-	return p.Aggregate(inlines, function, filename, linenumber, showColumns, address)
+	return f, nil
+}
+
+// c17Aggregate: the REAL aggregation step (exported Profile.Aggregate, what the driver calls
+// between fetching and report.New); part of the code under test on the direct path.
+func c17Aggregate(p *profile.Profile, gran string, noInlines, showColumns bool) error {
+	f, err := c17GranFlags(gran, noInlines, showColumns)
+	if err != nil || f.none {
+		return err
+	}
+	return p.Aggregate(f.inlines, f.function, f.filename, f.linenumber, f.columns, f.address)
+}
+
+// c17Expected: the profile whose frames the stacks must show, computed WITHOUT Profile.Aggregate
+// from the meaning of the granularity: every line of every location stays a frame (only
+// noinlines keeps the last line alone); a frame keeps its function name iff functions are shown,
+// its file name iff files are, its line iff lines are, its column iff lines and columns are.
+// Identical to `Spec.aggregate` in Lean (Spec/StacksAggregate.lean), compared on every case.
+func c17Expected(p *profile.Profile, f c17AggFlags) *profile.Profile {
+	q := p.Copy()
+	if f.none {
+		return q
+	}
+	for _, fn := range q.Function {
+		if !f.function {
+			fn.Name, fn.SystemName = "", ""
+		}
+		if !f.filename {
+			fn.Filename = ""
+		}
+	}
+	for _, l := range q.Location {
+		if !f.inlines && len(l.Line) > 1 {
+			l.Line = append([]profile.Line(nil), l.Line[len(l.Line)-1])
+		}
+		for i := range l.Line {
+			if !f.linenumber {
+				l.Line[i].Line, l.Line[i].Column = 0, 0
+			}
+			if !f.columns {
+				l.Line[i].Column = 0
+			}
+		}
+	}
+	return q
+}
+
+func c17FlagsText(f c17AggFlags) string {
+	b := func(x bool) string {
+		if x {
+			return "1"
+		}
+		return "0"
+	}
+	return strings.Join([]string{b(f.none), b(f.inlines), b(f.function), b(f.filename), b(f.linenumber), b(f.columns)}, " ")
+}
+
+// c17StackView: the part of a profile Stacks() reads (functions: id name file; locations: id and
+// lines; samples: locations and values), in the token form of Driver/Ops/C17.lean `wStackView`.
+func c17StackView(p *profile.Profile) string {
+	var w tw
+	w.n(len(p.Function))
+	for _, f := range p.Function {
+		w.nat(f.ID)
+		w.str(f.Name)
+		w.str(f.Filename)
+	}
+	w.n(len(p.Location))
+	for _, l := range p.Location {
+		w.nat(l.ID)
+		w.n(len(l.Line))
+		for _, ln := range l.Line {
+			w.nat(ln.Function.ID)
+			w.int(ln.Line)
+			w.int(ln.Column)
+		}
+	}
+	w.n(len(p.Sample))
+	for _, s := range p.Sample {
+		w.n(len(s.Location))
+		for _, l := range s.Location {
+			w.nat(l.ID)
+		}
+		w.n(len(s.Value))
+		for _, v := range s.Value {
+			w.int(v)
+		}
+	}
+	return w.String()
+}
+
+// c17ChangedParam names the URL parameters in which the request differs from the one before it.
+func c17ChangedParam(cs c17Case) string {
+	if len(cs.Before) == 0 {
+		return "none"
+	}
+	a, b := cs.Before[len(cs.Before)-1], cs.req()
+	var d []string
+	if a.SampleIndex != b.SampleIndex {
+		d = append(d, "si")
+	}
+	if a.Gran != b.Gran {
+		d = append(d, "g")
+	}
+	if a.NoInlines != b.NoInlines {
+		d = append(d, "noinlines")
+	}
+	if a.ShowColumns != b.ShowColumns {
+		d = append(d, "showcolumns")
+	}
+	for _, k := range []string{"f", "i", "h", "s", "sf", "tf", "ti"} {
+		if a.Filters[k] != b.Filters[k] {
+			d = append(d, k)
+		}
+	}
+	if len(d) == 0 {
+		return "same"
+	}
+	return strings.Join(d, "+")
+}
+
+// Unique lists the unique names (compared between two answers of the same code, never with the model).
+func (s *c17Set) Unique() string {
+	var b strings.Builder
+	for _, x := range s.Sources {
+		b.WriteString(strconv.Quote(x.Unique) + " ")
+	}
+	return b.String()
 }
 
 func c17IsASCII(p *profile.Profile) bool {
@@ -461,19 +605,34 @@ func c17Run(c *Ctx, cs c17Case) {
 		c.Res.HarnessError = "C17: sample index outside the sample types"
 		return
 	}
-	// the profile as Stacks() will see it
-	agg := p.Copy()
-	if err := c17Aggregate(agg, cs.Gran, cs.NoInlines, cs.ShowColumns); err != nil {
-		c.Res.HarnessError = "C17 Aggregate: " + err.Error()
+	// the profile whose frames the stacks must show (own reading of the granularity, not Aggregate)
+	flags, err := c17GranFlags(cs.Gran, cs.NoInlines, cs.ShowColumns)
+	if err != nil {
+		c.Res.HarnessError = "C17 granularity: " + err.Error()
 		return
 	}
+	agg := c17Expected(p, flags)
 	canonAgg := Canon(agg)
 	ascii := c17IsASCII(agg)
+	filtered := len(cs.Filters) > 0
+	if filtered && cs.Mode != "web" {
+		c.Res.HarnessError = "C17: filters only on the web path"
+		return
+	}
+	// Lean's Spec.aggregate must be the reading used here
+	if la := c.Drv.Ask("stacks.aggregate " + c17FlagsText(flags) + " " + Canon(p)); la != "ok "+c17StackView(agg) {
+		c.Disagree("C17/spec-aggregate", "Spec.aggregate differs from the harness's expected profile: "+c17Trunc(la)+" vs "+c17Trunc(c17StackView(agg)),
+			"correspondence Spec.aggregate ~ oracle granularity reading", cs)
+	}
 
 	var real *c17Set
 	switch cs.Mode {
 	case "direct":
-		in := agg.Copy() // Stacks() gets its own copy; it must not need to modify it
+		in := p.Copy() // the driver's order: aggregate (real Profile.Aggregate), then report.New(...).Stacks()
+		if err := c17Aggregate(in, cs.Gran, cs.NoInlines, cs.ShowColumns); err != nil {
+			c.Violation("C17/aggregate/error", "Profile.Aggregate fails on a valid profile: "+err.Error(), cs)
+			return
+		}
 		idx := cs.SampleIndex
 		opts := &report.Options{
 			OutputFormat: report.Dot,
@@ -512,11 +671,13 @@ func c17Run(c *Ctx, cs c17Case) {
 			c.Violation("C17/json/differs-from-stackset", "decoded JSON differs from the StackSet it encodes", cs)
 		}
 	case "web":
-		b, werr := c17Web(c, p, cs)
+		reqs := append(append([]c17Req(nil), cs.Before...), cs.req())
+		pages, werr := c17WebSession(p, reqs)
 		if werr != "" {
 			c.Violation("C17/web/"+c17FirstWord(werr), "the /flamegraph handler did not serve stack data: "+werr, cs)
 			return
 		}
+		b := pages[len(pages)-1]
 		js, nulls, err := c17FromJSON(b)
 		if err != nil {
 			c.Violation("C17/json/undecodable", err.Error(), cs)
@@ -526,14 +687,40 @@ func c17Run(c *Ctx, cs c17Case) {
 			c.Violation("C17/json/null:"+nulls[0], "the JSON in the /flamegraph page contains null at "+strings.Join(nulls, ", "), cs)
 		}
 		real = js
+		// the answer must not depend on what the server was asked before: the same request on a
+		// fresh server (and, with filters, that is the reference for the stack data itself)
+		if len(cs.Before) > 0 || filtered {
+			fp, ferr := c17WebSession(p, []c17Req{cs.req()})
+			if ferr != "" {
+				c.Violation("C17/web/fresh-"+c17FirstWord(ferr), "fresh server: "+ferr, cs)
+				return
+			}
+			fjs, _, err := c17FromJSON(fp[0])
+			if err != nil {
+				c.Violation("C17/json/undecodable", err.Error(), cs)
+				return
+			}
+			if a, b := c17Canon(js, true), c17Canon(fjs, true); a != b || js.Unique() != fjs.Unique() {
+				c.Violation("C17/web/answer-depends-on-earlier-request/"+c17ChangedParam(cs),
+					fmt.Sprintf("after %d earlier request(s) on the same server /flamegraph serves different stack data than a fresh server: %s vs fresh %s", len(cs.Before), c17Trunc(a), c17Trunc(b)), cs)
+			}
+			c.Res.Hit("web-sequence")
+		}
 	default:
 		c.Res.HarnessError = "C17: unknown mode " + cs.Mode
 		return
 	}
 
 	// (2) direct oracle on the real stack set
+	if filtered {
+		// which samples/frames survive a filter is C06/C11's business: here only the index structure
+		c17Oracle(c, cs, real, nil, false)
+		c.Res.Count("web-filtered|"+fmt.Sprint(cs.Filters)+"|"+canonAgg, len(cs.Before) > 0)
+		c.Res.Hit("mode:web-filtered")
+		return
+	}
 	frames := c17Frames(agg, cs.SampleIndex)
-	ok := c17Oracle(c, cs, real, frames)
+	ok := c17Oracle(c, cs, real, frames, true)
 
 	// the Spec's reading of "the sample's frames" must be the one the oracle used
 	sf := c.Drv.Ask("stacks.frames " + strconv.Itoa(cs.SampleIndex) + " " + canonAgg)
@@ -701,11 +888,14 @@ func runC17(c *Ctx) {
 			c17Run(c, cs)
 		}
 	}
-	nDirect, nWeb := 9000*c.Scale, 900*c.Scale
+	nDirect, nWeb, nSeq := 9000*c.Scale, 600*c.Scale, 400*c.Scale
 	for i := 0; i < nDirect; i++ {
 		c17Run(c, c17Gen(r.Fork(), "direct", i))
 	}
 	for i := 0; i < nWeb; i++ {
 		c17Run(c, c17Gen(r.Fork(), "web", i))
+	}
+	for i := 0; i < nSeq; i++ {
+		c17Run(c, c17Gen(r.Fork(), "webseq", i))
 	}
 }
